@@ -603,6 +603,11 @@ def feature(repo, chk):
         elif D in want_d:
             oks['C19.4c'] += 1
             seen_dom.add(label)
+        elif label == 'random draw from [low, high]' and any(isinstance(x, tuple) and len(x) == 4 and x[0] == 'call' and x[1] in (('lib', 'numpy.random.randint'), ('lib', 'numpy.random.random_integers'), ('lib', 'random.choices'))
+                                                             for x in walk_term(D)) or (label == 'random draw from [low, high]' and any(isinstance(x, tuple) and len(x) == 4 and x[0] == 'call' and x[1] == ('lib', 'numpy.random.choice')
+                                                             and not any(k_ == ('replace', ('bool', False)) for k_ in x[3]) for x in walk_term(D))):
+            problems.setdefault('C19.4c', (site, f'{desc}: domain = {show(D)[:120]}', 'the random domain is drawn WITH replacement (randint / choice without replace=False): it can contain the same value several times, so the feature '
+                                                 'has fewer distinct values than the requested cardinality (and "every domain value occurs" counts duplicates)'))
         elif within_vocabulary(D, want_d):
             problems.setdefault('C19.4c', (site, f'{desc}: domain = {show(D)[:120]}', f'domain construction `{label}` must be {show(want_d[0])[:100]}; found {show(D)[:140]}'))
         else:
@@ -849,6 +854,32 @@ def configure(repo, chk):
                 for pname, a in bind_args(c, callee, skip_self=True).items():
                     if isinstance(a, ast.Name) and a.id in cps and a.id != pname and pname in cps:
                         chk.bad('C19.8b', 'R6', f.site(c), ast.unparse(c).replace('\n', ' ')[:120], f'the argument `{a.id}` is bound to the parameter `{pname}` of {callee.name} although {callee.name} has a parameter `{a.id}` of its own: the value reaches the wrong role (and `{a.id}` keeps its default)')
+    # the data-set wide options of generate_data reach the feature generators: confirmed table of what each call forwards (k is not forwarded to
+    # _configure_generate_feature on the confirmed tree either)
+    FORWARDED = {'_configure_generate_feature': ('ensure_rep', 'random_values', 'low', 'high'), '_generate_feature': ('cardinality', 'ensure_rep', 'random_values', 'low', 'high', 'k')}
+    gd = cls_funcs.get('generate_data')
+    if gd is not None:
+        from .common import param_deps
+        n_fw = 0
+        for c in calls(gd):
+            if not (isinstance(c.func, ast.Attribute) and isinstance(c.func.value, ast.Name) and c.func.value.id == 'self' and c.func.attr in FORWARDED and c.func.attr in cls_funcs):
+                continue
+            if any(k.arg is None for k in c.keywords) or any(isinstance(a_, ast.Starred) for a_ in c.args):
+                chk.unsure('C19.8c', 'R6', gd.site(c), ast.unparse(c).replace('\n', ' ')[:120], 'the options are handed over through a * / ** expansion that was not resolved')
+                continue
+            ba = bind_args(c, cls_funcs[c.func.attr], skip_self=True)
+            for opt in FORWARDED[c.func.attr]:
+                if opt not in gd.params:
+                    continue
+                n_fw += 1
+                got = ba.get(opt)
+                if got is None:
+                    chk.bad('C19.8c', 'R6', gd.site(c), ast.unparse(c).replace('\n', ' ')[:120], f'generate_data does not hand its option `{opt}` to {c.func.attr}: the default of {c.func.attr} applies to these features '
+                            f'whatever the caller asked for (e.g. structured features ignore `{opt}`)')
+                elif opt not in param_deps(gd, got):
+                    chk.bad('C19.8c', 'R6', gd.site(c), ast.unparse(c).replace('\n', ' ')[:120], f'the parameter `{opt}` of {c.func.attr} receives `{ast.unparse(got)[:40]}`, not the option `{opt}` of generate_data')
+        if n_fw and not any(o.oid == 'C19.8c' for o in chk.obs):
+            chk.ok('C19.8c', 'R6', gd.site(), f'{n_fw} option bindings at the generator calls of generate_data', 'every data-set wide option reaches the feature generators')
     chk.analysed['generator_internal_calls'] = n_calls
     if not any(o.oid == 'C19.8b' for o in chk.obs):
         chk.ok('C19.8b', 'R6', m.relpath, f'{n_calls} calls between methods of {CLS}', 'no argument is bound to a parameter other than the one it is named after')
